@@ -1,3 +1,10 @@
 import GoImap.Props.C17
+#print axioms GoImap.C17.route_segmentation_independent
+#print axioms GoImap.C17.server_switch
+#print axioms GoImap.C17.server_switch_no_exec
+#print axioms GoImap.C17.client_switch
 #print axioms GoImap.C17.no_plain_creds_table
+#print axioms GoImap.C17.no_plain_creds
+#print axioms GoImap.C17.preauth_refused
 #print axioms GoImap.C17.keep_counterexample
+#print axioms GoImap.C17.keep_client_counterexample
